@@ -28,5 +28,6 @@ Definition chk (m e : res arr) : N * N * N := chk_res arr_eqb m e.
 Definition chkl (m e : res (list nat)) : N * N * N := chk_res (list_eqb Nat.eqb) m e.
 
 (* np.arange(size).reshape(shape) + off *)
-Definition ar (shape : list nat) (off : Z) : arr :=
-  mkArr shape (map (fun i => (off + Z.of_nat i)%Z) (seq 0 (prodn shape))).
+Fixpoint zrange (n : nat) (z : Z) : list Z :=
+  match n with 0 => [] | S n' => z :: zrange n' (z + 1)%Z end.
+Definition ar (shape : list nat) (off : Z) : arr := mkArr shape (zrange (prodn shape) off).
